@@ -148,6 +148,24 @@ pub fn json_result_kinds(stdout: &[u8]) -> Result<Vec<String>, String> {
         .collect()
 }
 
+/// (title, result kind) per entry of the JSON report (passing entries carry the title at top
+/// level, failing ones inside the test case)
+pub fn json_results(stdout: &[u8]) -> Result<Vec<(String, String)>, String> {
+    let v: serde_json::Value =
+        serde_json::from_slice(stdout).map_err(|e| format!("stdout is not JSON: {e}"))?;
+    let arr = v.as_array().ok_or("JSON report is not an array")?;
+    arr.iter()
+        .map(|o| {
+            let kind = o["result"]["kind"].as_str().ok_or_else(|| "entry without result.kind".to_string())?;
+            let title = o["title"]
+                .as_str()
+                .or_else(|| o["testcase"]["title"].as_str())
+                .ok_or_else(|| "entry without title".to_string())?;
+            Ok((title.to_string(), kind.to_string()))
+        })
+        .collect()
+}
+
 pub fn truncate(b: &[u8], n: usize) -> String {
     let s = String::from_utf8_lossy(b);
     if s.len() > n {
